@@ -41,6 +41,13 @@ T = {
    needs='outer = combined(inner..), inner = combined(leaf..); outer run once; a rule added to leaf; outer run again',
    caught={'C10': 'law-combined-dump'}, missed=['C10 before strengthening'],
    strengthened="C10's combined-ruleset law used one level of combination; now every other case builds a nested combination, runs it, adds rules and runs it again"),
+ 'C11-container-function-no-rebuild-rule': dict(prop='C11', change='the term/proof encoding emits no view-rebuild rule for a table whose only rebuildable columns are containers of e-classes',
+   needs='a function from base values to a container of an eq sort (:merge new), a stored container whose element is displaced by a union, an observation (check, size)',
+   caught={'C11': 'term-encoding-refuses-what-plain-accepts (a check that passes on the plain engine fails encoded)'}, missed=['C11 before strengthening', 'C14 (plain engine only)'],
+   strengthened='C11 had container sorts switched off; a third of the cases now end with a container-valued function and a constructor over a container, a union displacing a stored element, checks and print-size'),
+ 'C12-checker-equality-fact-one-side': dict(prop='C12', change='the proof checker accepts an equality body fact when only one of its two sides matches the premise (|| became &&)',
+   needs='a proof (or checking program) altered on one side of a rule-body equality whose other variable does not reach the head',
+   caught={'C12': 'checker-accepts-altered-proof (H9 single-point alteration of a proposition is still accepted)'}, missed=[], strengthened=None),
  'C13-both-subsumed-skip-merge': dict(prop='C13', change='the merge callback returns early when both colliding rows are subsumed',
    needs='two subsumed congruent rows re-keyed onto each other by a union',
    caught={'C13': 'engine-fails-model-accepts (check / extract)'}, missed=['C01 (no subsume in its fragment)', 'C04'], strengthened=None),
